@@ -298,14 +298,76 @@ class TNT(Ty):
         return f"nt[{self.cls.__name__}]"
 
 
+_box_cache = {}
+
+
+class TBox(Ty):
+    """
+    Element wrapper for sequences whose elements are themselves sequences or
+    strings: z3's sequence solver cannot reason about nested sequences
+    (`6 <= len(v)` for v: Seq(String) is `unknown`), but is fine with a
+    sequence of one-field datatypes.  Transparent to interpreted code.
+    """
+
+    kind = "box"
+
+    def __init__(self, inner: Ty):
+        self.inner = inner
+        k = str(inner.sort())
+        if k not in _box_cache:
+            d = z3.Datatype(f"Box_{_sort_name(inner)}")
+            d.declare("box", ("unbox", inner.sort()))
+            _box_cache[k] = d.create()
+        self.dt = _box_cache[k]
+
+    def key(self):
+        return (self.inner,)
+
+    def sort(self):
+        return self.dt
+
+    def box(self, t):
+        return self.dt.box(t)
+
+    def unbox(self, t):
+        return self.dt.unbox(t)
+
+    def lift(self, v):
+        return self.dt.box(self.inner.lift(v))
+
+    def domain(self, t):
+        return self.inner.domain(self.dt.unbox(t))
+
+    def unlift(self, mv, model=None):
+        return self.inner.unlift(mv.arg(0), model)
+
+    def __repr__(self):
+        return f"{self.inner}"
+
+
 class TSeq(Ty):
     """Immutable sequence value -> z3 Seq(T) (algebraic, quantifier free use)."""
 
     kind = "seq"
 
     def __init__(self, inner: Ty, pyty="list"):
+        if inner.kind != "box" and isinstance(inner.sort(), z3.SeqSortRef):
+            inner = TBox(inner)
         self.inner = inner
         self.pyty = pyty
+
+    def elem(self):
+        """the element type as interpreted code sees it"""
+        return self.inner.inner if self.inner.kind == "box" else self.inner
+
+    def unit(self, elem_term):
+        """Unit sequence of an (unboxed) element term"""
+        return z3.Unit(self.inner.box(elem_term) if self.inner.kind == "box" else elem_term)
+
+    def at(self, seq_term, i):
+        """(unboxed) element term at index i"""
+        e = seq_term[i]
+        return self.inner.unbox(e) if self.inner.kind == "box" else e
 
     def key(self):
         return (self.inner,)
@@ -379,6 +441,7 @@ DEC = TNum("Decimal")
 FLOAT = TNum("float")
 OSTR = TOpt(STR)
 OINT = TOpt(INT)
+SEQ_STR_TY = TSeq(STR)
 
 
 def ty_from_hint(h) -> Ty:
@@ -508,10 +571,22 @@ def coerce(v, ty: Ty) -> SV:
             return SV(ty.some(coerce(v, ty.inner).t), ty)
         if ty.kind == "seq" and v.ty.kind == "seq" and v.ty.inner == ty.inner:
             return SV(v.t, ty)
+        if ty.kind == "box":
+            return SV(ty.box(coerce(v, ty.inner).t), ty)
         raise TypeError(f"cannot coerce {v.ty} to {ty}")
     if ty.kind == "opt" and v is not None and not _fits(v, ty.inner):
         raise TypeError(f"cannot lift {v!r} to {ty}")
     return SV(ty.lift(v), ty)
+
+
+def S_unit(t):
+    """Unit of a Seq[str] from a String term"""
+    return SEQ_STR_TY.unit(t)
+
+
+def S_at(seq_term, i):
+    """String term at index i of a Seq[str] term"""
+    return SEQ_STR_TY.at(seq_term, i)
 
 
 def _fits(v, ty):
